@@ -10,8 +10,12 @@ workers = sys.argv[2] if len(sys.argv) > 2 else "6"
 ROOT = "/verif/seeded"
 props = sorted(BUDGET)
 out = {}
+if os.path.exists(os.path.join(ROOT, "cross_matrix.json")) and os.environ.get("CM_RESUME", "1") == "1":
+    out = json.load(open(os.path.join(ROOT, "cross_matrix.json")))
 ids = sorted(d for d in os.listdir(ROOT) if os.path.isdir(os.path.join(ROOT, d)))
 for tag in ids:
+    if tag in out:
+        continue
     root = selftest.make_mutant_copy([])
     r = subprocess.run(["patch", "-p1", "-s", "-d", root, "-i", os.path.join(ROOT, tag, "patch.diff")], capture_output=True, text=True)
     if r.returncode != 0:
